@@ -2,15 +2,40 @@
 
 When a block J only computes `d = discriminant(X)` and switches on it, and a predecessor path leaves a *statically known*
 variant in X (an inlined helper's `return Err(..)` / `Ok(..)`, the `Some(..)` / `None` arms of a desugared combinator
-feeding the next one), that predecessor is redirected straight to the arm the switch would take.  The CFG loses the
-infeasible paths "helper failed, caller takes the success arm" that a path-insensitive dominance / must-fact analysis
-would otherwise have to consider."""
+feeding the next one, an `Err` travelling through `.with_context(..)` and `?`), that predecessor is redirected straight to
+the arm the switch would take: the blocks in between are copied for it.  The CFG loses the infeasible paths "helper failed,
+caller takes the success arm" that a path-insensitive dominance / must-fact analysis would otherwise have to consider.
+
+Only blocks that are safe to copy are copied: assignments to plain locals, gotos/drops, and calls of a few functions that
+merely pass a Result/Option on (anyhow context, `Try::branch`)."""
 
 SIMPLE_RV = ("use", "ref", "discr", "cast", "unop", "binop", "aggregate", "repeat", "len", "rawptr")
 
+# calls that hand their first argument's variant on to their result: name -> mapping of variants (None = unchanged)
+TRY_MAP = {"Ok": "Continue", "Err": "Break", "Some": "Continue", "None": "Break"}
 
-def simple_block(blk):
-    """only assignments to plain locals: copying it duplicates no effect"""
+
+def transparent_call(t):
+    """(argument local, variant mapping or None) if the call only passes an Option/Result on"""
+    if t is None or t.get("k") != "call" or t.get("target") is None or not t.get("args"):
+        return None
+    c = t["callee"]
+    if "indirect" in c:
+        return None
+    a0 = t["args"][0]
+    if a0.get("k") not in ("move", "copy") or a0["place"]["proj"] or t["dest"]["proj"]:
+        return None
+    decl = c.get("decl", "") or ""
+    name = c.get("name", "")
+    if decl == "std::ops::Try::branch":
+        return (a0["place"]["local"], TRY_MAP)
+    if (c.get("krate") == "anyhow" and name in ("with_context", "context")) or decl in ("anyhow::Context::with_context", "anyhow::Context::context"):
+        return (a0["place"]["local"], None)
+    return None
+
+
+def simple_stmts(blk):
+    """only assignments to plain locals: copying them duplicates no effect"""
     for s in blk["stmts"]:
         if s.get("k") != "assign":
             if s.get("k") in ("storage", "nop", None):
@@ -21,6 +46,15 @@ def simple_block(blk):
         if s["rv"]["k"] not in SIMPLE_RV:
             return False
     return True
+
+
+def copyable(blk):
+    if blk.get("cleanup") or not simple_stmts(blk):
+        return False
+    t = blk["term"]
+    if t["k"] in ("goto", "drop"):
+        return t.get("target") is not None
+    return transparent_call(t) is not None
 
 
 def preds_of(blocks):
@@ -43,9 +77,10 @@ def preds_of(blocks):
     return pr
 
 
-def known_variant(blk, local, upto=None):
-    """scan the block's statements backwards (from index upto) for the value `local` holds at its end:
-    ("variant", name) | ("copy", other_local, index) | ("unknown",) | None (not assigned here)"""
+def value_in_block(blk, local, upto=None):
+    """what `local` holds at the end of the block's statements (or before statement index upto):
+    ("variant", name) | ("local", other) meaning a copy of another local whose value is not set in this block |
+    ("unknown",) | None (not assigned here)"""
     stmts = blk["stmts"]
     i = (len(stmts) if upto is None else upto) - 1
     while i >= 0:
@@ -57,49 +92,64 @@ def known_variant(blk, local, upto=None):
             if rv["k"] == "aggregate" and rv.get("agg") == "adt" and rv.get("variant"):
                 return ("variant", rv["variant"])
             if rv["k"] == "use" and rv["op"].get("k") in ("move", "copy") and not rv["op"]["place"]["proj"]:
-                return ("copy", rv["op"]["place"]["local"], i)
+                inner = value_in_block(blk, rv["op"]["place"]["local"], i)
+                if inner is None:
+                    return ("local", rv["op"]["place"]["local"])
+                return inner
             return ("unknown",)
         i -= 1
     return None
 
 
-def resolve(blocks, preds, b, local, depth, upto=None):
-    """paths (list of block indices, last one flowing into the switch block) that end with a known variant in `local`:
-    yields (path, variant).  path[0] is the block that established the variant; the rest are simple forwarding blocks"""
+def apply_maps(v, maps):
+    for m in maps:
+        if m is not None:
+            v = m.get(v)
+            if v is None:
+                return None
+    return v
+
+
+def resolve(blocks, preds, b, how, local, maps, depth):
+    """walk backwards from block b (which flows into the path towards the switch) looking for a statically known variant
+    of `local`; returns [(path, variant)], path[0] = the block that established it (its terminator gets redirected),
+    path[1:] = blocks to copy"""
     out = []
-    kv = known_variant(blocks[b], local, upto)
-    while kv is not None and kv[0] == "copy":
-        nxt = known_variant(blocks[b], kv[1], kv[2])
-        if nxt is None:
-            local, upto = kv[1], 0
-            kv = None
-            break
-        local, upto = kv[1], kv[2]
-        kv = nxt
-    if kv is not None:
-        if kv[0] == "variant":
-            out.append(([b], kv[1]))
+    blk = blocks[b]
+    t = blk["term"]
+    if how == "call":
+        # we arrived through this block's call: its result is the tracked local, or the call is not ours to copy
+        c = t.get("callee", {})
+        if t["dest"]["local"] == local and not t["dest"]["proj"]:
+            if c.get("name") == "from_residual":
+                ty = (t["dest"].get("ty") or c.get("self_arg_ty") or "")
+                v = "Err" if ty.startswith("std::result::Result<") else "None" if ty.startswith("std::option::Option<") else None
+                v = apply_maps(v, maps) if v else None
+                if v:
+                    out.append(([b], v))
+                return out
+            tc = transparent_call(t)
+            if tc is None:
+                return out
+            local, maps = tc[0], [tc[1]] + maps
+        else:
+            return out          # an unrelated call: not copied
+    val = value_in_block(blk, local)
+    if val is not None:
+        if val[0] == "variant":
+            v = apply_maps(val[1], maps)
+            if v:
+                out.append(([b], v))
+            return out
+        if val[0] == "unknown":
+            return out
+        local = val[1]
+    if depth <= 0 or not copyable(blk):
         return out
-    # not assigned in this block: look into the predecessors if this block only forwards
-    if depth <= 0 or not simple_block(blocks[b]) or blocks[b].get("cleanup"):
-        return out
-    for p, how in preds.get(b, []):
-        if p == b:
+    for p, phow in preds.get(b, []):
+        if p == b or phow not in ("goto", "call"):
             continue
-        if how == "call":
-            # `?` on a failure: the value is the result of FromResidual::from_residual — an Err / a None
-            t = blocks[p]["term"]
-            c = t.get("callee", {})
-            if c.get("name") == "from_residual" and t["dest"]["local"] == local and not t["dest"]["proj"]:
-                ty = (t["dest"].get("ty") or c.get("self_arg_ty") or c.get("gargs", "")).lstrip("[")
-                if ty.startswith("std::result::Result<"):
-                    out.append(([p, b], "Err"))
-                elif ty.startswith("std::option::Option<"):
-                    out.append(([p, b], "None"))
-            continue
-        if how != "goto":
-            continue
-        for path, v in resolve(blocks, preds, p, local, depth - 1):
+        for path, v in resolve(blocks, preds, p, phow, local, maps, depth - 1):
             out.append((path + [b], v))
     return out
 
@@ -112,7 +162,7 @@ def thread_switches(raw, rounds=3):
         todo = []
         for j, J in enumerate(blocks):
             t = J["term"]
-            if t is None or t["k"] != "switch" or J.get("cleanup") or not J["stmts"] or not simple_block(J):
+            if t is None or t["k"] != "switch" or J.get("cleanup") or not J["stmts"] or not simple_stmts(J):
                 continue
             last = J["stmts"][-1]
             if last.get("k") != "assign" or last["rv"]["k"] != "discr" or last["rv"]["place"]["proj"] or last["lhs"]["proj"]:
@@ -125,9 +175,9 @@ def thread_switches(raw, rounds=3):
                 continue
             variants = {name: idx for idx, name in last["rv"].get("variants", [])}
             for p, how in preds.get(j, []):
-                if how != "goto" or p == j:
+                if p == j or how not in ("goto", "call"):
                     continue
-                for path, v in resolve(blocks, preds, p, X, 8):
+                for path, v in resolve(blocks, preds, p, how, X, [], 10):
                     if v not in variants:
                         continue
                     tgt = None
@@ -152,19 +202,28 @@ def thread_switches(raw, rounds=3):
             first = path[1] if len(path) > 1 else j
             if st.get("target") != first:
                 continue
-            stmts = []
-            for b in path[1:]:
-                stmts += list(blocks[b]["stmts"])
-            stmts += list(blocks[j]["stmts"])
             J = blocks[j]
             meta = {"line": J["term"].get("line"), "exp": J["term"].get("exp", False)}
             if "ifile" in J["term"]:
                 meta["ifile"] = J["term"]["ifile"]
-            blocks.append({"cleanup": False, "stmts": stmts, "term": dict(meta, k="goto", target=tgt, threaded=True)})
+            # copies of the blocks on the path, chained, then a copy of the switch block's statements going to the arm
+            chain = path[1:]
+            base = len(blocks)
+            for k, bidx in enumerate(chain):
+                ob = blocks[bidx]
+                nxt = base + k + 1
+                ot = ob["term"]
+                if ot["k"] == "call":
+                    nt = dict(ot, target=nxt, threaded=True)
+                else:
+                    nt = {"k": "goto", "target": nxt, "line": ot.get("line"), "exp": ot.get("exp", False), "threaded": True,
+                          **({"ifile": ot["ifile"]} if "ifile" in ot else {})}
+                blocks.append({"cleanup": False, "stmts": list(ob["stmts"]), "term": nt})
+            blocks.append({"cleanup": False, "stmts": list(J["stmts"]), "term": dict(meta, k="goto", target=tgt, threaded=True)})
             if st["k"] == "call":
-                blocks[src]["term"] = dict(st, target=len(blocks) - 1)
+                blocks[src]["term"] = dict(st, target=base)
             else:
-                blocks[src]["term"] = {"k": "goto", "target": len(blocks) - 1, "line": st.get("line"), "exp": st.get("exp", False),
+                blocks[src]["term"] = {"k": "goto", "target": base, "line": st.get("line"), "exp": st.get("exp", False),
                                        **({"ifile": st["ifile"]} if "ifile" in st else {})}
             done_src.add(src)
             n_threaded += 1
